@@ -400,6 +400,11 @@ def _srv_oracle(case, impl):
     again = [(int(m.group(1)), m.group(2)) for m in re.finditer(r"\bL@(\d+):(\w+)", impl) if 0 < int(m.group(1)) < t0 + 32000]
     if case[3] == "ni" and again:
         return ["the copy of the request arriving at %d ms (answered at %d ms, inside the 64*T1 the transaction lives) was handed to the layers a second time" % (again[0][0], t0)]
+    if case[3] == "inv":
+        acks = [int(x.split(":")[0]) for x in case[7].split(",") if x.endswith(":A") and int(x.split(":")[0]) < t0 + 32000]
+        if acks and any(t >= acks[0] for t in sends):
+            return ["the ACK for the rejected INVITE arrived at %d ms and a copy of the final response went out at %r: an ACK is never answered" % (
+                acks[0], [t for t in sends if t >= acks[0]])]
     if case[4] == "1" and len(sends) != 1:
         return ["over a reliable transport the final response went out %d times (at %r ms): the request was received once, it gets exactly one final response" % (len(sends), sends)]
     return []
